@@ -117,6 +117,7 @@ func (b *basicBus) tryDropNode(typ reflect.Type) {
 	}
 	n.lk.Unlock()
 
+	verifHook("n.drop", typ, nil, nil)
 	delete(b.nodes, typ)
 	b.lk.Unlock()
 }
@@ -194,6 +195,7 @@ func (s *sub) Close() error {
 			}
 
 			tryDrop := len(n.sinks) == 0 && n.nEmitters.Load() == 0
+			verifHook("n.rmsink", n.typ, s.ch, nil)
 
 			n.lk.Unlock()
 
@@ -201,6 +203,7 @@ func (s *sub) Close() error {
 				s.dropper(n.typ)
 			}
 		}
+		verifHook("ch.close", nil, s.ch, nil)
 		close(s.ch)
 	})
 	return nil
@@ -264,15 +267,18 @@ func (b *basicBus) Subscribe(evtTypes any, opts ...event.SubscriptionOpt) (_ eve
 		b.withNode(typ.Elem(), func(n *node) {
 			n.sinks = append(n.sinks, &namedSink{ch: out.ch, name: out.name})
 			out.nodes[i] = n
+			verifHook("n.addsink", n.typ, out.ch, nil)
 			if b.metricsTracer != nil {
 				b.metricsTracer.AddSubscriber(typ.Elem())
 			}
 		}, func(n *node) {
+			defer verifHook("n.asyncdone", n.typ, out.ch, nil)
 			if n.keepLast {
 				l := n.last
 				if l == nil {
 					return
 				}
+				verifHook("n.last", n.typ, out.ch, l)
 				out.ch <- l
 			}
 		})
@@ -345,6 +351,7 @@ func (n *wildcardNode) addSink(sink *namedSink) {
 	n.nSinks.Add(1) // ok to do outside the lock
 	n.Lock()
 	n.sinks = append(n.sinks, sink)
+	verifHook("w.addsink", nil, sink.ch, nil)
 	n.Unlock()
 
 	if n.metricsTracer != nil {
@@ -378,6 +385,7 @@ func (n *wildcardNode) removeSink(ch chan any) {
 	n.nSinks.Add(-1) // ok to do outside the lock
 	n.Lock()
 	n.sinks = slices.DeleteFunc(n.sinks, func(s *namedSink) bool { return s.ch == ch })
+	verifHook("w.rmsink", nil, ch, nil)
 	n.Unlock()
 	// We could close ch itself here, which would also end the subscriber's
 	// Out() range like typed subs do.
@@ -389,15 +397,18 @@ var wildcardType = reflect.TypeOf(event.WildcardSubscription)
 
 func (n *wildcardNode) emit(evt any) {
 	if n.nSinks.Load() == 0 {
+		verifHook("w.skip", nil, nil, evt)
 		return
 	}
 
 	n.RLock()
+	verifHook("w.rlock", nil, nil, evt)
 	for _, sink := range n.sinks {
 
 		// Sending metrics before sending on channel allows us to
 		// record channel full events before blocking
 		sendSubscriberMetrics(n.metricsTracer, sink)
+		verifHook("w.send", nil, sink.ch, evt)
 
 		select {
 		case sink.ch <- evt:
@@ -405,6 +416,7 @@ func (n *wildcardNode) emit(evt any) {
 			emitAndLogError(n.log, wildcardType, evt, sink)
 		}
 	}
+	verifHook("w.runlock", nil, nil, evt)
 	n.RUnlock()
 }
 
@@ -440,6 +452,7 @@ func (n *node) emit(evt any) {
 	}
 
 	n.lk.Lock()
+	verifHook("n.lock", n.typ, nil, evt)
 	if n.keepLast {
 		n.last = evt
 	}
@@ -449,12 +462,14 @@ func (n *node) emit(evt any) {
 		// Sending metrics before sending on channel allows us to
 		// record channel full events before blocking
 		sendSubscriberMetrics(n.metricsTracer, sink)
+		verifHook("n.send", n.typ, sink.ch, evt)
 		select {
 		case sink.ch <- evt:
 		default:
 			emitAndLogError(n.log, n.typ, evt, sink)
 		}
 	}
+	verifHook("n.unlock", n.typ, nil, evt)
 	n.lk.Unlock()
 }
 
